@@ -221,6 +221,12 @@ fn one<X: Sx, Y: Sx>(ctx: &Ctx, idx: u64, l: usize, hdr_class: usize, msg_class:
     reject::<X>(ctx, &h, "pk-doubled", "-".into(), &BBSplusPublicKey(h.pk.0 + h.pk.0), &h.sig, &h.msgs, ho);
     // ---- signature bit flips (all 640 for selected scenarios)
     let flips: Vec<usize> = if all_flips { (0..640).collect() } else { (0..24).map(|_| rand_range(&mut r, 640)).collect() };
+    // the exponent e re-encoded as e + r (same residue, other octets)
+    if let Some(a) = crate::c04::alias_plus_r(&h.sig[48..]) {
+        let mut s2 = h.sig;
+        s2[48..].copy_from_slice(&a);
+        reject::<X>(ctx, &h, "sig-e-plus-r", "-".into(), &h.pk, &s2, &h.msgs, ho);
+    }
     for b in flips {
         let mut s2 = h.sig;
         s2[b / 8] ^= 1 << (b % 8);
